@@ -429,6 +429,19 @@ func (t *Task) Done() bool {
 // IsDead reports whether the task's run is over (leaked goroutine).
 func (t *Task) IsDead() bool { return t.S.dead.Load() }
 
+// LiveTasks returns the labels of the tasks that have not finished and whose label contains substr.
+func (s *Sim) LiveTasks(substr string) []string {
+	s.mu.Lock()
+	defer s.mu.Unlock()
+	var out []string
+	for _, t := range s.tasks {
+		if t.state != stDone && strings.Contains(t.Label, substr) {
+			out = append(out, t.Label)
+		}
+	}
+	return out
+}
+
 // Join parks the calling task until all given tasks are done.
 func (t *Task) Join(ts ...*Task) {
 	t.Block("join", func() bool {
